@@ -10,8 +10,8 @@ _families = [l.strip() for l in open(os.path.join(os.path.dirname(os.path.abspat
 
 PLAN = {
     "level": "fault_enumeration",
-    "quick": [replays("C04"), tape("C04", 600, size=500), tape("C04", 4500, size=500, flavour="plain", seed_offset=500)],
-    "thorough": [replays("C04"), tape("C04", 6000, size=500), tape("C04", 64000, size=500, flavour="plain", seed_offset=500)],
+    "quick": [replays("C04"), replays("C04", flavour="plain"), tape("C04", 600, size=500), tape("C04", 4500, size=500, flavour="plain", seed_offset=500)],
+    "thorough": [replays("C04"), replays("C04", flavour="plain"), tape("C04", 6000, size=500), tape("C04", 64000, size=500, flavour="plain", seed_offset=500)],
     # a family with zero hits is reported as GENERATOR-HEALTH (the floor is far below one case); the evidence also carries
     # x_family_validations with an entry, possibly 0, for every family of the catalogue
     "class_floors": dict([("fault:" + f, 1e-9) for f in _families] + [
@@ -20,7 +20,10 @@ PLAN = {
         # position of a faulted equivalence in the lists of its two variables, and what legal equivalences come before it
         ("fault-context:after-public+private-on-both-endpoints", 0.004), ("fault-context:before-public+private-on-both-endpoints", 0.004),
         ("fault-context:between-public-and-private-on-both-endpoints", 0.004), ("fault-context:after-public+private-on-one-endpoint", 0.004),
-        ("fault-context:bare-endpoints", 0.004), ("fault-context:after-public+private-type-equivalences", 0.004), ("fault-context:only-equivalence-of-its-variable", 0.006),
+        ("fault-context:bare-endpoints", 0.004),
+        # independent exploration: library units / inner connections of imported components, same-named component twin, document route
+        ("at:lib-units-of-imported-variable", 0.004), ("document:cellml-prefix-declared-on-model", 0.01), ("document:prefixed-mathml-declared-on-math", 0.01),
+        ("document:prefixed-mathml-declared-on-model", 0.01), ("base:variable-in-imported-units-mapped-to-compatible-local-units", 0.01), ("fault-context:after-public+private-type-equivalences", 0.004), ("fault-context:only-equivalence-of-its-variable", 0.006),
     ]),
 }
 CLAIM = {
